@@ -734,7 +734,21 @@ def _plot_films(ctx, cap, pl, fi, lp, m, data, stem, override, extra_classes):
         rec.mon('lis_produces_plot')
         try:
             has = pl.hasDataToPlotLIS(lp, film)
-            r = pl.plotLogPassLIS(fi, lp, lp.xAxisFirstEngVal, lp.xAxisLastEngVal, film, out, frameStep=1, title='Plot <&> "%s"' % fid.decode()) if has else (None, None)
+            x_from, x_to = lp.xAxisFirstEngVal, lp.xAxisLastEngVal
+            urng = ctx.sub_rng('interval-units', stem, fid)
+            if urng.random() < 0.3 and x_from.value is not None and x_to.value is not None:
+                # the same interval stated in another unit of length than the one the log is recorded in (nudged inwards by 1e-9:
+                # an interval that reaches beyond the log by a rounding error is refused by design): the plot is the same plot
+                from TotalDepth.LIS.core import EngVal as _EV, Units as _U
+                u2 = urng.choice([u for u in (b'FEET', b'M   ', b'.1IN', b'IN  ') if u != x_from.uom])
+                out_sign = 1.0 if x_from.value > x_to.value else -1.0
+                a = _U.convert(x_from.value, x_from.uom, u2)
+                b = _U.convert(x_to.value, x_to.uom, u2)
+                x_from = _EV.EngVal(a - out_sign * (abs(a) + 1.0) * 1e-9, u2)
+                x_to = _EV.EngVal(b + out_sign * (abs(b) + 1.0) * 1e-9, u2)
+                classes = classes + ['plot:interval-in-other-units']
+                wit['interval'] = '%r %s .. %r %s' % (x_from.value, u2, x_to.value, u2)
+            r = pl.plotLogPassLIS(fi, lp, x_from, x_to, film, out, frameStep=1, title='Plot <&> "%s"' % fid.decode()) if has else (None, None)
         except Exception as e:  # noqa
             rec.case(('genplot', _h(data), fid), False, classes=classes + ['plot:raised'])
             if cap['n'] < 20:
